@@ -142,7 +142,13 @@ func runC09Benign(rc *runCtx) *RunResult {
 				var dv any
 				var derr error
 				if pv := guard("decode-into-used-receiver:"+ct.name, func() {
-					dv, derr = ct.decode2(simio.NewShapedReader(fb.Bytes(), simio.NoReadFaults(), simio.ShapeByteReader), simio.NewShapedReader(enc, simio.NoReadFaults(), simio.ShapeByteReader))
+					// the receiver is queried between the two decodes (lookup hints and lazily built
+					// state of the first value must not survive into the second)
+					mid := func(x any) { ct.use(x, pts, cells) }
+					if t.Chance(300) {
+						mid = nil
+					}
+					dv, derr = ct.decode2(simio.NewShapedReader(fb.Bytes(), simio.NoReadFaults(), simio.ShapeByteReader), simio.NewShapedReader(enc, simio.NoReadFaults(), simio.ShapeByteReader), mid)
 				}); pv != nil {
 					res.Viol = pv
 					return res
